@@ -224,7 +224,7 @@ def wide_case(v, shape, N, opts):
     """dataframe-level checks: a row-wise comparison of two columns, a scalar check, an element-wise column check, a groupby check"""
     lazy = bool(opts.get("lazy"))
     c = v.int("c")
-    if shape != "frame_builtin":
+    if shape not in ("frame_builtin", "falsy_labels"):
         df = v.frame([("a", "float", False), ("b", "int")], N, labels="l")
         xa, _ = v.cells("a_", "float", N, False)
         xb, _ = v.cells("b_", "int", N, False)
@@ -258,6 +258,13 @@ def wide_case(v, shape, N, opts):
         xb, nb = v.cells("b_", "float", N, True)
         schema = pa.DataFrameSchema({"a": pa.Column(float, nullable=True), "b": pa.Column(float, nullable=True)}, checks=Check.ge(c))
         spec = zand(z3.And(z3.Or(na[i], xa[i] >= R(v.z(c))), z3.Or(nb[i], xb[i] >= R(v.z(c)))) for i in range(N))
+    elif shape == "falsy_labels":
+        # column labels that are falsy python values (the integer 0, the empty string): a column-level check concerns its own column
+        df = v.frame([(0, "float", False), ("", "int"), (1, "int")], N, labels="l")
+        x0, _ = v.cells("0_", "float", N, False)
+        xe, _ = v.cells("_", "int", N, False)
+        schema = pa.DataFrameSchema({0: pa.Column(float, Check.ge(c)), "": pa.Column(int, Check.le(c)), 1: pa.Column(int)})
+        spec = zand(z3.And(x0[i] >= R(v.z(c)), xe[i] <= v.z(c)) for i in range(N))
     elif shape == "two_checks":
         schema = pa.DataFrameSchema({"a": pa.Column(float, [Check.ge(c), Check.le(c + 5)]), "b": pa.Column(int, Check.ne(c))})
         spec = zand(z3.And(xa[i] >= R(v.z(c)), xa[i] <= R(v.z(c)) + 5, xb[i] != v.z(c)) for i in range(N))
@@ -567,7 +574,7 @@ def standard_cases(tier):
     for shape in ("frame_index", "series_index", "frame_multiindex"):
         for lazy in (False, True):
             ts.append((f"I/{shape}/lazy={int(lazy)}/N={N}", index_case, (shape, N, dict(lazy=lazy))))
-    for shape in ("rowwise", "scalar", "element_wise", "two_checks", "groupby", "frame_builtin"):
+    for shape in ("rowwise", "scalar", "element_wise", "two_checks", "groupby", "frame_builtin", "falsy_labels"):
         for lazy in (False, True):
             ts.append((f"W/{shape}/lazy={int(lazy)}/N={N}", wide_case, (shape, N, dict(lazy=lazy))))
     for c in (dict(coerce=True), dict(default=True), dict(drop=True), dict(coerce=True, default=True), dict(coerce=True, drop=True), dict(default=True, drop=True)):
@@ -905,7 +912,11 @@ def report_exact_terms(v, fc, viol, cells, labels):
             if kid != s["chk"] or not (c == "*" or s["col"] == str(c)):
                 continue
             for i, t in enumerate(ts):
-                alts.append(z3.And(t, z3.Not(s["idx_null"]), _num_eq(s["idx"], labels[i])))
+                same_cell = z3.BoolVal(True)
+                if c != "*":  # the entry carries the value of that cell (labels may repeat: the label alone does not identify the cell)
+                    xs, ns = cells[c]
+                    same_cell = z3.If(ns[i], s["val_null"], z3.And(z3.Not(s["val_null"]), _num_eq(s["val"], xs[i]) if z3.is_expr(s["val"]) else z3.BoolVal(False)))
+                alts.append(z3.And(t, z3.Not(s["idx_null"]), _num_eq(s["idx"], labels[i]), same_cell))
         sound.append(z3.Implies(s["p"], zor(alts)))
     return zand(complete), zand(sound)
 
@@ -949,7 +960,7 @@ def report_exact_real(fc, vals, viol, cells, labels):
     row_ids = {_check_id(k) for (_, k) in viol}
     listed = [r for r in rows if r[1] in row_ids]
     complete = all(any((w[0] == "*" or w[0] == r[0]) and w[1] == r[1] and w[2] == r[2] and (w[0] == "*" or w[3] == r[3]) for r in listed) for w in want)
-    sound = all(any((w[0] == "*" or w[0] == r[0]) and w[1] == r[1] and w[2] == r[2] for w in want) for r in listed)
+    sound = all(any((w[0] == "*" or w[0] == r[0]) and w[1] == r[1] and w[2] == r[2] and (w[0] == "*" or w[3] == r[3]) for w in want) for r in listed)
     return complete, sound
 
 
@@ -958,7 +969,8 @@ def lazy_case(v, shape, N, opts):
     opts = dict(opts)
     if shape == "series":
         kind, cname = opts.get("kind", "float"), opts.get("check", "ge")
-        obj = v.series("x", kind, N, sname="s", labels="l", distinct_labels=True)
+        # (dup_labels: row labels may repeat — the report still names exactly the failing (label, value) cells)
+        obj = v.series("x", kind, N, sname="s", labels="l", distinct_labels=not opts.get("dup_labels"))
         mk = O.numeric_check if kind in ("int", "float") else O.string_check
         cs = mk(v, cname, opts.get("ina", True))
         fs = O.FieldSpec(kind, nullable=v.bool("nullable"), unique=v.bool("unique"), checks=[cs], name="s",
@@ -1157,13 +1169,22 @@ def drop_case(v, shape, N, opts):
         arr = [("a", a_kind), ("b", "int")]
         obj = v.frame(arr, N, labels="l", distinct_labels=True)
         schema = pa.Column(float, Check.ge(lo), nullable=nullable, unique=unique_a, report_duplicates=rd, coerce=coerce, name="a", drop_invalid_rows=True)
-    elif shape in ("frame", "frame_wide", "frame_wide3", "frame_joint", "frame_sets", "frame_nfc", "frame_nested", "frame_index", "model"):
+    elif shape in ("frame", "frame_wide", "frame_wide3", "frame_joint", "frame_sets", "frame_nfc", "frame_nfc_mi", "frame_nested", "frame_index", "model"):
         arr = [("a", a_kind), ("b", "int")]
         # frame_wide: the dataframe-level check compares a with b; its treatment of null rows is C19's subject, so a is null-free here
         # frame_wide3: a third, nullable column that the check does not look at (its nulls must not shield a failing row)
         extra = [("c", "float")] if shape == "frame_wide3" else []
         arr = arr + extra
-        obj = v.frame([("a", a_kind, False if shape.startswith("frame_wide") else None), ("b", "int")] + extra, N, labels="l", distinct_labels=True)
+        if shape == "frame_nfc_mi":  # the same on a frame with a two-level MultiIndex (row labels are tuples)
+            obj = v.mi_frame([("a", a_kind), ("b", "int")], N, levels=[("k0", "l"), ("k1", "m")])
+            if v.sym:  # the property is stated for data with a unique index: the label tuples are pairwise distinct
+                from symx import eng as _eng
+
+                for i in range(N):
+                    for j in range(i):
+                        _eng().assume(z3.Or(z3.Int(f"l{i}") != z3.Int(f"l{j}"), z3.Int(f"m{i}") != z3.Int(f"m{j}")))
+        else:
+            obj = v.frame([("a", a_kind, False if shape.startswith("frame_wide") else None), ("b", "int")] + extra, N, labels="l", distinct_labels=True)
         kw = {}
         if shape.startswith("frame_wide"):
             kw["checks"] = Check(lambda d: d["a"] >= d["b"], ignore_na=True)
@@ -1186,7 +1207,7 @@ def drop_case(v, shape, N, opts):
             schema = M
         else:
             # frame_nfc: the check reports at most one failure case (n_failure_cases limits the REPORT, not the set of invalid rows)
-            cols_ = {"a": pa.Column(float, Check.ge(lo, **({"n_failure_cases": 1} if shape == "frame_nfc" else {})), nullable=nullable, unique=unique_a,
+            cols_ = {"a": pa.Column(float, Check.ge(lo, **({"n_failure_cases": 1} if shape.startswith("frame_nfc") else {})), nullable=nullable, unique=unique_a,
                                     report_duplicates=rd, coerce=coerce),
                      "b": pa.Column(int, Check.isin([1, 2, 3]))}
             if shape == "frame_wide3":
@@ -1237,10 +1258,13 @@ def drop_case(v, shape, N, opts):
                 asserts.append(("drop/values_unchanged", H.equal_to_snapshot(v, out, snap, values_only=True, subset=True)))
         else:
             keep = [not v.vals.term(b) for b in bad]
-            exp_labels = [v.vals.term(labels[i]) for i in range(N) if keep[i]]
-            got_labels = [int(x) for x in out.index.tolist()]
+            if shape == "frame_nfc_mi":
+                got_labels = [tuple(int(y) for y in x) for x in out.index.tolist()]
+                lab = [(int(v.vals.term(z3.Int(f"l{i}"))), int(v.vals.term(z3.Int(f"m{i}")))) for i in range(N)]
+            else:
+                got_labels = [int(x) for x in out.index.tolist()]
+                lab = [v.vals.term(labels[i]) for i in range(N)]
             surv = set(got_labels)
-            lab = [v.vals.term(labels[i]) for i in range(N)]
             asserts.append(("drop/no_invalid_row_survives", all(keep[i] for i in range(N) if lab[i] in surv)))
             asserts.append(("drop/no_valid_row_dropped", all(lab[i] in surv for i in range(N) if keep[i])))
             ref = snap[1]
@@ -1969,6 +1993,41 @@ def model_case(v, shape, N):
                                            "b": pa.Column(int, Check.isin([1, 2, 3]))})
         arr = [("a", "float"), ("b", "int")]
         models = [M]
+    elif shape == "diamond":
+        # D(B, C) with B and C deriving from A; C overrides a field of A, B (listed first) leaves it alone: the MRO (D, B, C, A) picks C's
+        class A0(pa.DataFrameModel):
+            a: float = pa.Field(ge=lo, nullable=nullable)
+            b: int = pa.Field(isin=[1, 2, 3])
+
+        class B0(A0):
+            c: float = pa.Field(nullable=True)
+
+        class C0(A0):
+            a: float = pa.Field(le=hi, unique=unique)
+
+        class M(B0, C0):
+            pass
+
+        spec = lambda: pa.DataFrameSchema({"a": pa.Column(float, Check.le(hi), unique=unique), "b": pa.Column(int, Check.isin([1, 2, 3])),  # noqa: E731
+                                           "c": pa.Column(float, nullable=True)})
+        arr = [("a", "float"), ("b", "int"), ("c", "float")]
+        models = [M]
+    elif shape == "regex_check":
+        # a @check registered with regex=True attaches to the fields whose names MATCH the pattern (re.match: from the start of the name)
+        class M(pa.DataFrameModel):
+            a1: float = pa.Field(nullable=nullable)
+            ba1: float = pa.Field(nullable=True)
+            b: int = pa.Field(isin=[1, 2, 3])
+
+            @pa.check("a[0-9]", regex=True)
+            def at_least(cls, s):  # noqa: N805
+                return s >= lo
+
+        spec = lambda: pa.DataFrameSchema({"a1": pa.Column(float, Check(lambda s: s >= lo), nullable=nullable), "ba1": pa.Column(float, nullable=True),  # noqa: E731
+                                           "b": pa.Column(int, Check.isin([1, 2, 3]))})
+        arr = [("a1", "float"), ("ba1", "float"), ("b", "int")]
+        models = [M]
+        asserts.append(("model/number_of_checks", v.holds([len(c.checks) for c in M.to_schema().columns.values()] == [1, 0, 1])))
     elif shape == "two_parsers":
         # two @parser methods on the same field, one inherited and one added by the subclass: both are applied, in order
         from pandera import Parser
@@ -2026,7 +2085,7 @@ def model_case(v, shape, N):
     s1b = M.to_schema()
     asserts.append(("model/to_schema_stable", v.holds(fingerprint(s1) == fingerprint(s1b) and bool(s1 == s1b))))
     S = spec()
-    if shape not in ("check_methods", "inherited_cls_check", "parser_methods", "two_parsers"):
+    if shape not in ("check_methods", "inherited_cls_check", "parser_methods", "two_parsers", "regex_check"):
         asserts.append(("model/schema_equals_spec", v.holds(_fp_cols(s1) == _fp_cols(S))))
         facts["fp_model"], facts["fp_spec"] = None, None
     om = H.outcome(lambda: M.validate(df))
